@@ -1108,11 +1108,10 @@ Proof.
     + apply andb_prop in Cd. destruct Cd as [Cw Cn]. apply Z.eqb_eq in Cn.
       assert (W2 : w s = 2).
       { pose proof (I_cnt s V) as C. unfold closed_word in Cw.
-        unfold wopen in C. rewrite <- Z.negb_even, Cw in C. simpl in C.
-        rewrite C in Cn. rewrite Z.add_0_r in Cn.
-        change (count_of (2 * Z.of_nat (holders s))) with (count_of (2 * Z.of_nat (holders s))) in Cn.
-        replace (2 * Z.of_nat (holders s)) with (2 * Z.of_nat (holders s) + 0) in Cn by lia.
-        rewrite word_count in Cn by auto. lia. }
+        assert (Wo : wopen s = 0) by (unfold wopen; rewrite <- Z.negb_even, Cw; reflexivity).
+        assert (Cn' : count_of (w s) = Z.of_nat (holders s)).
+        { rewrite C at 1. rewrite Wo. apply word_count. auto. }
+        lia. }
       destruct (inv_nonzero s V ltac:(lia)) as [P0 E0].
       unfold RInv, pending, closes_left; simpl.
       pose proof (sum_set_upd s i pl SSub SSet E) as Q. simpl in Q.
@@ -1192,8 +1191,12 @@ Qed.
 Lemma RInv_init b plans progs :
   b = true \/ (sumf nclose progs <= 1)%nat -> RInv (init b plans progs).
 Proof.
-  intros H. unfold RInv, pending, closes_left; simpl. rewrite !sumf_map.
-  unfold setn, pendn, closen; simpl. rewrite !sumf_const0. split; [lia|].
+  intros H.
+  assert (A : closes_left (init b plans progs) = sumf nclose progs).
+  { unfold closes_left; simpl. rewrite sumf_map. reflexivity. }
+  assert (B : pending (init b plans progs) = O).
+  { unfold pending; simpl. rewrite !sumf_map. unfold setn, pendn; simpl. rewrite !sumf_const0. reflexivity. }
+  unfold RInv. rewrite A, B. simpl. split; [lia|].
   destruct H; [left; auto|right; lia].
 Qed.
 
@@ -1237,3 +1240,124 @@ Proof.
   intros W F s J. destruct (join_after_work b plans progs sched W J) as (Ev & _).
   destruct (release_safe b plans progs sched F Ev) as (_ & A & B). auto.
 Qed.
+
+(* ------------------------------------------------------------------------------------------ *)
+(* the nested work of a reference is started only after that reference was admitted; a rejected
+   reference never starts its work *)
+Definition started (p : spc) : bool :=
+  match p with SRunning | SSub | SSet | SFin true => true | _ => false end.
+
+Definition TInv (c : conf st ev) : Prop :=
+  forall i, In (ENestStart i) (snd c) ->
+    exists pl pc, nth_error (sps (fst c)) i = Some (pl, pc) /\ started pc = true.
+
+Lemma no_start_in_set i ws : ~ In (ENestStart i) (ESet :: map EResume ws).
+Proof.
+  intros [H|H]; [discriminate|]. apply in_map_iff in H. destruct H as (? & ? & _). discriminate.
+Qed.
+
+Lemma step_started t s s' evs :
+  step t s = Some (s', evs) ->
+  (forall i, In (ENestStart i) evs ->
+     exists pl pc, nth_error (sps s') i = Some (pl, pc) /\ started pc = true) /\
+  (forall i pl pc, nth_error (sps s) i = Some (pl, pc) -> started pc = true ->
+     exists pc', nth_error (sps s') i = Some (pl, pc') /\ started pc' = true).
+Proof.
+  intros H. unfold step in H. destruct (Nat.ltb t (nsp s)) eqn:Lt.
+  - apply Nat.ltb_lt in Lt. unfold step_sp in H.
+    destruct (nth_error (sps s) t) as [[pl pc]|] eqn:E; [|discriminate].
+    assert (Gen : forall v p evs0, (started pc = true -> started p = true) ->
+              (forall i, In (ENestStart i) evs0 -> i = t /\ started p = true) ->
+              (forall i, In (ENestStart i) evs0 ->
+                 exists pl0 pc0, nth_error (sps (upd_sp s v t pl p)) i = Some (pl0, pc0) /\ started pc0 = true) /\
+              (forall i pl0 pc0, nth_error (sps s) i = Some (pl0, pc0) -> started pc0 = true ->
+                 exists pc', nth_error (sps (upd_sp s v t pl p)) i = Some (pl0, pc') /\ started pc' = true)).
+    { intros v p evs0 Hm He. split.
+      - intros i I. destruct (He i I) as (-> & S). exists pl, p. simpl.
+        rewrite nth_error_set_nth_eq by exact Lt. auto.
+      - intros i pl0 pc0 E0 S0. simpl. destruct (Nat.eq_dec t i) as [<-|N].
+        + rewrite E in E0. inversion E0; subst. exists p.
+          rewrite nth_error_set_nth_eq by exact Lt. auto.
+        + exists pc0. rewrite nth_error_set_nth_neq by exact N. auto. }
+    destruct pc; try discriminate.
+    + inversion H; subst. apply Gen; [discriminate|]. intros i [I|[]]; discriminate.
+    + destruct (w s =? o); inversion H; subst; (apply Gen; [discriminate|]);
+        intros i [I|[]]; discriminate.
+    + inversion H; subst. apply Gen; [discriminate|]. intros i [I|[]]; discriminate.
+    + inversion H; subst. apply Gen; [auto|]. intros i [I|[]]. inversion I; auto.
+    + inversion H; subst. apply Gen; [auto|]. intros i [I|[]]; discriminate.
+    + inversion H; subst. apply Gen; [destruct (_ && _); auto|]. intros i [I|[]]; discriminate.
+    + inversion H; subst. unfold do_set; simpl. split.
+      * intros i I. exfalso. eapply no_start_in_set; eauto.
+      * intros i pl0 pc0 E0 S0. destruct (Nat.eq_dec t i) as [<-|N].
+        -- rewrite E in E0. inversion E0; subst. exists (SFin true).
+           rewrite nth_error_set_nth_eq by exact Lt. auto.
+        -- exists pc0. rewrite nth_error_set_nth_neq by exact N. auto.
+  - unfold step_jn in H. destruct (nth_error (jns s) (t - nsp s)) as [x|]; [|discriminate].
+    assert (Same : forall s1 evs0, sps s1 = sps s -> (forall i, ~ In (ENestStart i) evs0) ->
+              (forall i, In (ENestStart i) evs0 ->
+                 exists pl pc, nth_error (sps s1) i = Some (pl, pc) /\ started pc = true) /\
+              (forall i pl pc, nth_error (sps s) i = Some (pl, pc) -> started pc = true ->
+                 exists pc', nth_error (sps s1) i = Some (pl, pc') /\ started pc' = true)).
+    { intros s1 evs0 Hs Hn. split.
+      - intros i I. exfalso. eapply Hn; eauto.
+      - intros i pl pc E0 S0. rewrite Hs. eauto. }
+    destruct (jmode_ x); [| |discriminate].
+    + destruct (jprog x) as [|op r]; [discriminate|].
+      destruct op; try (inversion H; subst; apply Same; [reflexivity|];
+                        intros i [I|[]]; discriminate).
+      destruct (evt s); inversion H; subst; apply Same; try reflexivity.
+      * intros i [I|[I|[]]]; discriminate.
+      * intros i [I|[]]; discriminate.
+    + inversion H; subst. apply Same; [reflexivity|]. intros i. apply no_start_in_set.
+Qed.
+
+Theorem start_only_admitted b plans progs sched :
+  let c := run step sched (init b plans progs, []) in
+  forall i, In (ENestStart i) (snd c) ->
+    exists pl pc, nth_error (sps (fst c)) i = Some (pl, pc) /\ started pc = true.
+Proof.
+  apply (run_invariant st nat ev step TInv).
+  - intros c t s' evs T H i I. simpl in *. destruct (step_started _ _ _ _ H) as [A B].
+    apply in_app_or in I. destruct I as [I|I]; [|eauto].
+    destruct (T i I) as (pl & pc & E & S). destruct (B i pl pc E S) as (pc' & E' & S'). eauto.
+  - intros i [].
+Qed.
+
+Corollary rejected_never_starts b plans progs sched i pl pc :
+  let c := run step sched (init b plans progs, []) in
+  nth_error (sps (fst c)) i = Some (pl, pc) -> pc = SRejected \/ pc = SFin false ->
+  ~ In (ENestStart i) (snd c).
+Proof.
+  intros c E Hp I. destruct (start_only_admitted b plans progs sched i I) as (pl' & pc' & E' & S).
+  fold c in E'. rewrite E in E'. inversion E'; subst. destruct Hp as [->| ->]; discriminate.
+Qed.
+
+(* ------------------------------------------------------------------------------------------ *)
+(* the end_scope the code had before the fix (strict = false: set the event whenever count = 0 was
+   read, also by a second close): a join can complete, and every closer/joiner can have returned,
+   while a completing reference is still about to call evt_.set() on the scope *)
+Definition hazard (s : st) : Prop :=
+  joins_over s = true /\ joined s <> [] /\ someone_setting s = true.
+
+(* v1 cleanup() = request_stop() + join(): one thread, one spawned operation *)
+Theorem release_as_written_refuted_cleanup :
+  exists sched, hazard (fst (run step sched (init false [PDetach] [prog_v1_cleanup], []))).
+Proof.
+  exists [0;0;0;0; 1;1; 0; 1;1;1;1]%nat. unfold hazard. vm_compute.
+  repeat split; congruence.
+Qed.
+
+(* two racing v2 join()s *)
+Theorem release_as_written_refuted_two_joins :
+  exists sched, hazard (fst (run step sched (init false [PStart] [prog_join; prog_join], []))).
+Proof.
+  exists [0;0;0;0; 1; 0; 2;2;2;2; 1;1]%nat. unfold hazard. vm_compute.
+  repeat split; congruence.
+Qed.
+
+(* the standard programs are well formed *)
+Lemma std_progs_wf :
+  wf_prog prog_join /\ wf_prog prog_v1_cleanup /\ wf_prog prog_request_stop /\
+  wf_prog prog_v0_complete /\ wf_prog prog_v0_cleanup.
+Proof. unfold wf_prog. vm_compute. intuition. Qed.
